@@ -559,6 +559,35 @@ impl<'ast> Visit<'ast> for MutSelfPass {
     fn visit_impl_item_fn(&mut self, f: &'ast syn::ImplItemFn) { self.handle(&f.sig, &f.block); }
 }
 
+// ---------------------------------------------------------------- N9 (automatic) constructor values
+
+/// `.map_err(Ctor)` / `.map(Ctor)` ... where the argument is a path to a tuple-struct or enum-variant constructor
+/// (last segment capitalised)  ->  `|verif_e| Ctor(verif_e)`.  Pure eta-expansion (Verus: "using a datatype constructor
+/// as a function value" is unsupported).  The closure is recognised at splice time by its parameter name and gets the
+/// contract `ensures equal(verif_r, Ctor(verif_e))`; it does not take part in the `@closure k` numbering.
+struct CtorValuePass {
+    edits: Vec<Edit>,
+}
+const CTOR_VALUE_METHODS: [&str; 6] = ["map", "map_err", "and_then", "or_else", "unwrap_or_else", "map_or_else"];
+impl<'ast> Visit<'ast> for CtorValuePass {
+    fn visit_expr_method_call(&mut self, m: &'ast syn::ExprMethodCall) {
+        if CTOR_VALUE_METHODS.contains(&m.method.to_string().as_str()) && m.args.len() == 1 {
+            if let syn::Expr::Path(p) = &m.args[0] {
+                if p.qself.is_none() {
+                    let last = p.path.segments.last().map(|s| s.ident.to_string()).unwrap_or_default();
+                    let generic = p.path.segments.iter().any(|s| !matches!(s.arguments, syn::PathArguments::None));
+                    if last.chars().next().is_some_and(|c| c.is_uppercase()) && !generic && last.chars().any(|c| c.is_lowercase()) {
+                        let r = range(p.span());
+                        self.edits.push(Edit { start: r.start, end: r.start, text: "|verif_e| ".into(), rule: "N9.auto" });
+                        self.edits.push(Edit { start: r.end, end: r.end, text: "(verif_e)".into(), rule: "N9.auto" });
+                    }
+                }
+            }
+        }
+        visit::visit_expr_method_call(self, m);
+    }
+}
+
 // ---------------------------------------------------------------- N19 `|_|`
 
 /// `|_| e`  ->  `|_verif_unused_k| e`  (Verus: closure parameters must be variables).  A named, unused binding:
@@ -649,7 +678,8 @@ pub fn normalize(
         let mut ff = FnFinder { fns: vec![] };
         ff.visit_file(&f);
         let Some(fr) = ff.fns.first() else { return Err(Lost("lock-scope: not a function".into())) };
-        let first = fr.block.stmts.first().map(|s| text[range(s.span())].split_whitespace().collect::<Vec<_>>().join(" "));
+        // items (`const`, `use`, nested fn …) declare, they do not execute: the first EXECUTED statement must take the lock
+        let first = fr.block.stmts.iter().find(|s| !matches!(s, syn::Stmt::Item(_))).map(|s| text[range(s.span())].split_whitespace().collect::<Vec<_>>().join(" "));
         if first.as_deref() != Some("let mut guard = self.0.lock().await;") {
             return Err(Lost("anchor lost: lock-scope shape — the method no longer begins with `let mut guard = self.0.lock().await;`".into()));
         }
@@ -793,6 +823,16 @@ pub fn normalize(
             text = apply_edits_all(&text, p.edits);
         }
     }
+    // N9 (automatic)
+    if !skip("N9.auto") {
+        let f = parse(&text, "N18")?;
+        let mut p = CtorValuePass { edits: vec![] };
+        p.visit_file(&f);
+        if !p.edits.is_empty() {
+            bump(fired, "N9.auto", p.edits.len() / 2);
+            text = apply_zero_width_safe(&text, p.edits);
+        }
+    }
     // N19
     if !skip("N19") {
         let f = parse(&text, "N18")?;
@@ -841,6 +881,7 @@ pub fn normalize(
     for (from, to, rule) in &spec.subst {
         let n = text.matches(from.as_str()).count();
         if n == 0 {
+            if spec.subst_optional { continue; }
             return Err(Lost(format!("anchor lost: substitution text `{from}` ({rule}) not found")));
         }
         text = text.replace(from.as_str(), to);
@@ -873,6 +914,7 @@ struct BodyScan<'ast> {
     for_exprs: Vec<Option<usize>>,            // byte offset of the iterable of a `for` loop (None for while/loop)
     loops: Vec<usize>,                       // byte offset of the body's `{`
     closures: Vec<&'ast syn::ExprClosure>,
+    auto_closures: Vec<&'ast syn::ExprClosure>,   // eta-expanded constructors (rule N9.auto): contract generated here
     stmts: Vec<std::ops::Range<usize>>,
 }
 impl<'ast> Visit<'ast> for BodyScan<'ast> {
@@ -892,7 +934,8 @@ impl<'ast> Visit<'ast> for BodyScan<'ast> {
         visit::visit_expr_loop(self, l);
     }
     fn visit_expr_closure(&mut self, c: &'ast syn::ExprClosure) {
-        self.closures.push(c);
+        let auto = c.inputs.len() == 1 && matches!(&c.inputs[0], syn::Pat::Ident(i) if i.ident == "verif_e");
+        if auto { self.auto_closures.push(c); } else { self.closures.push(c); }
         visit::visit_expr_closure(self, c);
     }
     fn visit_stmt(&mut self, s: &'ast syn::Stmt) {
@@ -949,6 +992,19 @@ pub fn splice(
         let b = range(fr.block.brace_token.span.open()).end;
         edits.push(Edit { start: b, end: b, text: format!("\n        {}", prologue.trim()), rule: "proof-prologue" });
     }
+    {
+        // contracts of the eta-expanded constructors (rule N9.auto): the closure returns exactly `Ctor(argument)`
+        let mut scan0 = BodyScan { guards: 0, for_exprs: vec![], loops: vec![], closures: vec![], auto_closures: vec![], stmts: vec![] };
+        scan0.visit_block(fr.block);
+        for c in &scan0.auto_closures {
+            let he = range(c.or2_token.span()).end;
+            let br = range(c.body.span());
+            let body = text[br.clone()].to_string();
+            edits.push(Edit { start: he, end: he, text: format!(" -> (verif_r: _) ensures equal(verif_r, {body})"), rule: "N9.auto" });
+            edits.push(Edit { start: br.start, end: br.start, text: "{ ".into(), rule: "N9.auto" });
+            edits.push(Edit { start: br.end, end: br.end, text: " }".into(), rule: "N9.auto" });
+        }
+    }
     if let Some(cl) = cl {
         let ret = cl.ret.clone().unwrap_or_else(|| "r".to_string());
         if let syn::ReturnType::Type(_, ty) = &fr.sig.output {
@@ -983,7 +1039,7 @@ pub fn splice(
         let b = range(fr.block.brace_token.span.open()).start;
         edits.push(Edit { start: b, end: b, text: c, rule: "clauses" });
 
-        let mut scan = BodyScan { guards: 0, for_exprs: vec![], loops: vec![], closures: vec![], stmts: vec![] };
+        let mut scan = BodyScan { guards: 0, for_exprs: vec![], loops: vec![], closures: vec![], auto_closures: vec![], stmts: vec![] };
         scan.visit_block(fr.block);
         if scan.guards > 0 && has_mut_ref_param(fr.sig) {
             // measured (notes/spikes/verus_match_guard.rs): Verus 0.2026.09.13 loses `final(p)` of a `&mut` parameter when
